@@ -53,6 +53,7 @@ F = [
  ("C02","F28","fixed",commit("invalid title line"),"known/C02/F28-invalid-title-line.json","'[foo]: /url' followed by the line '\"title\" ok': the line is a paragraph (spec example 209) but the definition still recorded the title (reported by a seeding sub-agent, reproduced and fixed)"),
  ("C02","F29","fixed",commit("one-character info string"),"known/C02/F29-one-char-info-at-eof.json","'```c' as the last line without a line ending lost its info string (the guard assumed a trailing newline); reported by a seeding sub-agent as a by-product, reproduced by the constructed-document tier once the closing fence may be omitted at the end of the document"),
  ("C02","F30","fixed",commit("returns nothing for an empty segment"),"known/C02/F30-blank-last-code-line-no-eol.json","' ```' LF ' ' (last line holds only the fence's indentation, no line ending): the blank content line was dropped because ForceNewline skipped empty segments; found by the final-line-ending tier"),
+ ("C02","F32","fixed",commit("wider than its byte length"),"known/C02/F32-tab-indented-last-line-no-eol.json","'> ' TAB '#' as the last line without a line ending rendered <p>#</p> instead of an empty heading (with the line ending it is a heading): openBlocks compared the indentation width in columns with the byte length of the line and took the line for blank; found by the thorough final-line-ending tier"),
  ("C02","F31","known","","known/C02/F31-quote-marker-only-last-line-in-fence.json","'> ```' LF '> ' without a final line ending: the last line is blank once the container markers are removed, and the blank content line of the fenced code block open inside the container is lost (with a final line ending it is kept): the quote parser consumes the whole line and the child never sees an empty line; in a list item ('- ```' LF '  ') Continue advances len(line)-1 and one byte of the indentation becomes content. A repair touches the block-continuation loop / reader end-of-input semantics; recorded, not repaired"),
  ("C02","F28b","fixed",commit("invalid title line"),"known/C02/F28b-invalid-title-line-dest-own-line.json","the same with the destination on a line of its own: that line was also left in the paragraph"),
 ]
